@@ -14,7 +14,7 @@ blocks.  On the tree the baseline was taken from nothing is inlined at all.
 import json
 import os
 
-MAX_BLOCKS = 90
+MAX_BLOCKS = 400
 MAX_DEPTH = 3
 MAX_TOTAL = 2500
 BASELINE = os.path.join(os.path.dirname(os.path.abspath(__file__)), "baseline_fns.json")
@@ -131,6 +131,8 @@ def inline_crate(facts, baseline_paths):
                         off_l, off_b = len(locals_), len(blocks)
                         locals_.extend(cal["locals"])
                         for d in cal["debug"]:
+                            if not d["place"]["p"] and 1 <= d["place"]["l"] <= cal["arg_count"]:
+                                continue            # parameters become anonymous: they stand for the argument expressions
                             nd = dict(d)
                             nd["place"] = _shift_place(d["place"], off_l)
                             debug.append(nd)
